@@ -410,6 +410,37 @@ def correspond(ctx, scale):
                     failures.append({'key': f'{key}:exception:{type(ex).__name__}', 'what': f'{m["name"]} ({lay}): {ex!r}', 'case': dict(name=m['name'], layout=lay, tb=traceback.format_exc()[-800:])})
         if len(samples) < 4:
             samples.append(dict(module=m['name'], layouts=list(m['layouts'])))
+    from vector_quantize_pytorch import VectorQuantize
+    # (4b) position-wise under a MASK: with ragged padding in the batch, every VALID position still gets the result of that vector passed alone
+    # (whatever the other rows' padding is) - heads x projection x layernorm-after-projection x cosine
+    for mi in range(8 if not ctx.thorough else 32):
+        heads_m, sep_m = [(1, False), (4, False), (2, True), (2, False)][mi % 4]
+        ln_m = (mi // 4) % 2 == 1
+        cos_m = (mi // 2) % 3 == 1
+        kw_m = dict(dim=6, codebook_dim=2, heads=heads_m, separate_codebook_per_head=sep_m, codebook_size=16, layernorm_after_project_in=ln_m, use_cosine_sim=cos_m)
+        try:
+            torch.manual_seed(rng.randrange(10 ** 6))
+            vm = VectorQuantize(**kw_m)
+            vm.eval()
+            bm, nm = 3, 6
+            lens_m = [nm, rng.randrange(1, nm), rng.randrange(1, nm)]
+            mm = torch.arange(nm)[None, :] < torch.tensor(lens_m)[:, None]
+            xm = torch.randn(bm, nm, 6)
+            with torch.no_grad():
+                om, im, _ = vm(torch.where(mm[..., None], xm, torch.full_like(xm, 50.0)), mask=mm)
+                bad_pos = []
+                for bi in range(bm):
+                    for ti in range(lens_m[bi]):
+                        oa, ia, _ = vm(xm[bi:bi + 1, ti:ti + 1])
+                        if not (torch.equal(ia.reshape(-1), im[bi, ti].reshape(-1)) and torch.allclose(oa.reshape(-1), om[bi, ti].reshape(-1), atol=1e-5, rtol=1e-4)):
+                            bad_pos.append((bi, ti))
+            ev += 1
+            dist['masked_batch_vs_alone'] = dist.get('masked_batch_vs_alone', 0) + 1
+            if bad_pos:
+                failures.append({'key': f'vq-masked:valid-position-depends-on-batch:heads={heads_m}:sep={sep_m}:ln={ln_m}', 'what': f'VectorQuantize({kw_m}) with lens {lens_m}: valid positions {bad_pos[:6]} get a different result in the padded batch than alone',
+                                 'case': dict(kw=kw_m, lens=lens_m)})
+        except Exception as ex:
+            failures.append({'key': f'vq-masked:exception:{type(ex).__name__}', 'what': f'VectorQuantize({kw_m}): {ex!r}', 'case': dict(kw=kw_m)})
     # (5) LARGE calls: (tokens x codes) beyond 2^24 pairs in one call vs the same tokens in small chunks - a size-dependent code path (chunking,
     # an alternative distance formula above a memory threshold ...) must give every token the same result
     from vector_quantize_pytorch import SimVQ, ResidualSimVQ, VectorQuantize, LFQ
